@@ -59,7 +59,7 @@ func (s *Sim) Scenario() *ScenarioOut {
 	r := s.R
 	nb := nonceBook{}
 	out := &ScenarioOut{}
-	switch r.Intn(7) {
+	switch r.Intn(8) {
 	case 0: // dust stake in the middle of a validator's stake list, then evidence against it
 		v := s.someValidator()
 		us := s.userKeys(3)
@@ -145,6 +145,25 @@ func (s *Sim) Scenario() *ScenarioOut {
 		period := ap.MinVotingPeriodBlocks()
 		out.deliver = append(out.deliver, s.specN(nb, v, ctrlertypes.TRX_PROPOSAL, rtypes.ZeroAddress(), nil, &ctrlertypes.TrxPayloadProposal{Message: "e", StartVotingHeight: start,
 			VotingPeriodBlocks: period, ApplyingHeight: start + period + ap.LazyApplyingBlocks(), OptType: 512, Options: nil}).Build())
+	case 7: // one delegator leaves and another joins a validator with the same power in the same block (total unchanged, stakes differ)
+		var st *StakeRef
+		for i := len(s.Stakes) - 1; i >= 0; i-- {
+			c := s.Stakes[i]
+			if c.Owner >= 0 && c.Power > 0 && string(s.Keys[c.Owner].Addr) != string(c.To) {
+				st = &s.Stakes[i]
+				break
+			}
+		}
+		us := s.userKeys(2)
+		if st == nil || len(us) < 2 {
+			return nil
+		}
+		joiner := us[0]
+		if string(joiner.Addr) == string(s.Keys[st.Owner].Addr) {
+			joiner = us[1]
+		}
+		out.deliver = append(out.deliver, s.specN(nb, s.Keys[st.Owner], ctrlertypes.TRX_UNSTAKING, st.To, nil, &ctrlertypes.TrxPayloadUnstaking{TxHash: st.Hash}).Build())
+		out.deliver = append(out.deliver, s.specN(nb, joiner, ctrlertypes.TRX_STAKING, st.To, Rigo(uint64(st.Power)), nil).Build())
 	case 6: // a contract transaction sent by / sent to / touching the proposer of this block
 		if !s.Opt.WithEVM || s.Cur == nil || len(s.Cur.Proposer) == 0 || len(s.Contracts) == 0 {
 			return nil
